@@ -96,7 +96,14 @@ var xferAssumptions = []string{
 	"delay bounding: executions needing more deviations than the stated bound are not covered; virtual time: timers fire when nothing else can run or as a cost-1 deviation",
 }
 
+func xferFsPart(name, mode string, shards int) *PartSpec {
+	p := xferPart(name, mode, shards)
+	p.FsPoints = true
+	return p
+}
+
 func init() {
+	register("C05", &CheckSpec{Level: "model_checking", Assumptions: append([]string{"crash model: a process kill leaves exactly the effects of the file-system calls completed so far (WriteFile and WriteAt are split into halves, rename is atomic); power-loss reordering is out of scope"}, xferAssumptions...), Parts: []*PartSpec{xferFsPart("c05", "c05", 16)}})
 	register("C03", &CheckSpec{Level: "model_checking", Assumptions: xferAssumptions, Parts: []*PartSpec{xferPart("c03", "c03", 16)}})
 	register("C01", &CheckSpec{Level: "model_checking", Assumptions: xferAssumptions, Parts: []*PartSpec{xferPart("c01", "c01", 16)}})
 	register("C02", &CheckSpec{Level: "fault_enumeration", Assumptions: append([]string{"faults are injected at byte positions of the vquic streams as written by the real code; one fault per execution"}, xferAssumptions...), Parts: []*PartSpec{xferPart("c02", "c02", 16)}})
